@@ -297,4 +297,31 @@ theorem recipients_enter_twice {s : St} (h : Inv s) (ns : Ns) (sid : Sid) (r : R
 
 example : Inv demo := Inv.nil.run demoOps
 
+/-- leaving undoes entering, however often the room was entered: there is no entry count -/
+theorem enter_then_leave {s : St} (h : Inv s) (ns : Ns) (sid : Sid) (r : Room) :
+    abs (apply (apply s (.enter ns sid r)) (.leave ns sid r)) = abs (apply s (.leave ns sid r)) := by
+  rw [refines (h.apply _), refines h, refines h, Spec_enter_leave]
+
+/-- a connected client that left a room and enters it again is a member exactly as if it had never left -/
+theorem leave_then_enter {s : St} (h : Inv s) (ns : Ns) (sid : Sid) (r : Room)
+    (hc : connected s ns sid) :
+    abs (apply (apply s (.leave ns sid r)) (.enter ns sid r)) = abs (apply s (.enter ns sid r)) := by
+  rw [refines (h.apply _), refines h, refines h, Spec_leave_enter]
+  unfold connected at hc
+  show (eioOf s ns sid).isSome = true
+  cases h' : eioOf s ns sid with
+  | none => exact absurd h' hc
+  | some _ => rfl
+
+theorem close_idempotent {s : St} (h : Inv s) (ns : Ns) (r : Room) :
+    abs (apply (apply s (.closeRoom ns r)) (.closeRoom ns r)) = abs (apply s (.closeRoom ns r)) := by
+  rw [refines (h.apply _), refines h, Spec_close_idem]
+
+theorem disconnect_idempotent {s : St} (h : Inv s) (ns : Ns) (sid : Sid) :
+    abs (apply (apply s (.disconnect ns sid)) (.disconnect ns sid)) = abs (apply s (.disconnect ns sid)) := by
+  rw [refines (h.apply _), refines h, Spec_disconnect_idem]
+
+-- non-vacuity of `leave_then_enter`: `s1` is connected to `nsA` in the demo state
+example : connected demo nsA s1 := by unfold connected; decide
+
 end Sio.C03
